@@ -97,6 +97,8 @@ class Runner:
         ctx.hist("duplicates", len(vals) != len(ds))
         ctx.hist("distinct partitions", len(set(parts)))
         ctx.hist("has 0 or 1", any(v in (0, 1) for v, _ in ds))
+        if any(e[2] is None for e in case["edges"]):
+            ctx.hist("edge rows with NULL probability", min(5, sum(1 for e in case["edges"] if e[2] is None)))
         try:
             steps = X.canonical_steps(case, cap)
         except Exception as e:  # noqa: BLE001
@@ -132,6 +134,11 @@ def generate(ctx: Ctx, R: Runner):
             idkind = ["int", "str", "link"][(fi + rd) % 3]
             n = rng.choice([6, 10, 16, 25, 40]) if quick else rng.choice([6, 10, 16, 25, 40, 80, 150])
             R.add(X.build_case(rng, fam, n, backend, idkind, stats=(rng.random() < 0.35)))
+    # ---- NULL probabilities with threshold lists containing 0 ----------------------------------------
+    for i in range(40 if quick else 300):
+        fam = X5.FAMILIES[(3 * i + 2) % len(X5.FAMILIES)]
+        R.add(X.build_null_case(rng, fam, rng.choice([3, 4, 6, 9]), "duckdb" if i % 2 == 0 else "sqlite",
+                                ["int", "str"][(i // 2) % 2], stats=(rng.random() < 0.3)))
     # ---- sequences of calls on one db_api (results must not depend on what ran before) ---------
     kinds = ["graphs", "graphs", "thresholds", "modes", "mixed"]
     for i in range(30 if quick else 200):
